@@ -69,7 +69,7 @@ func relayFeatures() []feature {
 	add("req-body=1", "rb", func(rc *relayCase) { rc.reqBody = "x"; needsBodyMethod(rc) })
 	add("req-body=chunked5", "rb", func(rc *relayCase) { rc.reqBody = "hello"; rc.chunkReq = true; needsBodyMethod(rc) })
 	add("req-body=70k", "rb", func(rc *relayCase) { rc.reqBody = big70k; needsBodyMethod(rc) })
-	for _, st := range []int{201, 204, 301, 404, 500} {
+	for _, st := range []int{42, 201, 203, 204, 299, 301, 404, 418, 500, 503, 599, 999} {
 		st := st
 		add("status="+strconv.Itoa(st), "status", func(rc *relayCase) {
 			rc.status = st
@@ -93,6 +93,8 @@ func relayFeatures() []feature {
 	rhdr("proxy-authenticate", [2]string{"Proxy-Authenticate", "Basic realm=x"})
 	rhdr("custom", [2]string{"X-Custom-Thing", "some value"}, [2]string{"Content-Language", "da"})
 	rhdr("content-type", [2]string{"Content-Type", "application/x-verif; charset=x"})
+	rhdr("accept-ranges-none", [2]string{"Accept-Ranges", "none"})
+	rhdr("empty-value", [2]string{"X-Empty", ""})
 	add("resp-no-validators", "valid", func(rc *relayCase) { rc.noValid = true })
 	add("resp-body=empty", "sb", func(rc *relayCase) { rc.respSize = 0 })
 	add("resp-body=chunked", "sb", func(rc *relayCase) { rc.chunked = true })
@@ -272,6 +274,15 @@ func judgeRelay(c *vrun.Ctx, origin *vnet.Origin, send func(raw string) *vnet.Re
 		} else if len(reqs) != 0 && round == 1 {
 			// not from the store after all (e.g. not storable): still judged as a relayed answer
 			where = "relayed-again"
+		}
+		if rc.status > 0 && rc.status < 100 {
+			// net/http cannot put such a status on the wire: the proxy has to answer with an error of
+			// its own (the client must not be left without a response, which is checked above)
+			if resp.Status < 500 && resp.Status != rc.status {
+				// (the hand-written responder of the tunnel can put the code on the wire as it is: faithful too)
+				report("unrelayable-status-not-an-error/"+where, fmt.Sprintf("origin answered with status %03d, client received %d", rc.status, resp.Status))
+			}
+			continue
 		}
 		// ---- response direction ----
 		wantStatus := rc.status
